@@ -123,6 +123,16 @@ func (s *CSt) add(d uint64) {
 func caddp(s *CSt, d uint64) {
 	s.a = s.a + d
 }
+
+func crecord(out *uint64, v uint64, wg *sync.WaitGroup) {
+	*out = v
+	wg.Done()
+}
+
+func (s *CSt) addw(d uint64, wg *sync.WaitGroup) {
+	s.a = s.a + d
+	wg.Done()
+}
 `
 
 func locked(ls lockStyle, st cstep, tabs int) string {
@@ -235,5 +245,15 @@ func ConcProgs(tier string) []ConcProg {
 			add(ls, js, []cstep{steps[0]}, []cstep{steps[2]}, nil, "plain")
 		}
 	}
+	// edge of the subset (names E_...): go statements that are not `go func() {...}()`. The pinned translator rejects
+	// them, which is an acceptable answer; a translator that accepts them must evaluate the function value and the
+	// arguments in the spawning thread, and must not let the literal's parameters leak into the spawner's scope
+	out = append(out,
+		ConcProg{Name: "E_go_named_args", Desc: "go f(args): arguments are evaluated by the spawner", Source: "func E_go_named_args() (uint64, uint64) {\n\twg := new(sync.WaitGroup)\n\twg.Add(1)\n\tout := new(uint64)\n\tvar x uint64 = 1\n\tgo crecord(out, x, wg)\n\tx = 2\n\twg.Wait()\n\treturn *out, x\n}\n"},
+		ConcProg{Name: "E_go_method_args", Desc: "go o.m(args): receiver and arguments are evaluated by the spawner", Source: "func E_go_method_args() (uint64, uint64) {\n\twg := new(sync.WaitGroup)\n\twg.Add(1)\n\tst := &CSt{a: 0}\n\tvar x uint64 = 1\n\tgo st.addw(x, wg)\n\tx = 5\n\twg.Wait()\n\treturn st.a, x\n}\n"},
+		ConcProg{Name: "E_go_literal_param_shadow", Desc: "go func(v T){...}(x): the parameter does not shadow the spawner's v afterwards", Source: "func E_go_literal_param_shadow() (uint64, uint64) {\n\twg := new(sync.WaitGroup)\n\twg.Add(1)\n\tout := new(uint64)\n\tv := uint64(20)\n\tx := uint64(1)\n\tgo func(v uint64) {\n\t\t*out = v\n\t\twg.Done()\n\t}(x)\n\twg.Wait()\n\treturn *out, v + 1\n}\n"},
+		ConcProg{Name: "E_go_literal_param_late", Desc: "go func(v T){...}(x): x is read at the go statement", Source: "func E_go_literal_param_late() (uint64, uint64) {\n\twg := new(sync.WaitGroup)\n\twg.Add(1)\n\tout := new(uint64)\n\tvar x uint64 = 1\n\tgo func(k uint64) {\n\t\t*out = k\n\t\twg.Done()\n\t}(x)\n\tx = 7\n\twg.Wait()\n\treturn *out, x\n}\n"},
+		ConcProg{Name: "E_go_named_in_loop", Desc: "go f(i) in a loop: every child gets the value of i at its go statement", Source: "func E_go_named_in_loop() (uint64, uint64) {\n\twg := new(sync.WaitGroup)\n\twg.Add(2)\n\ta := new(uint64)\n\tb := new(uint64)\n\tfor i := uint64(1); i < 3; i++ {\n\t\tif i == 1 {\n\t\t\tgo crecord(a, i, wg)\n\t\t} else {\n\t\t\tgo crecord(b, i, wg)\n\t\t}\n\t}\n\twg.Wait()\n\treturn *a, *b\n}\n"},
+	)
 	return out
 }
